@@ -1,6 +1,7 @@
 import Pds.Proofs.TDigestSize
 import Pds.Proofs.TDigestScaleReal
 import Pds.Proofs.TDigestScaleLog
+import Pds.Proofs.TDigestWidth
 import Mathlib.Algebra.Order.Field.Rat
 import Mathlib.Tactic.NormNum
 /-!
@@ -8,7 +9,9 @@ import Mathlib.Tactic.NormNum
 
 Model: `Pds.TDigest` (`src/tdigest.rs`) over an arbitrary linearly ordered field `α`.  Histories
 (`run`, `Op`) are as in C16.  `backlog_bound` and `merge_ksize` hold for every scale function;
-`centroid_bound_K0` is for `K0` (`k0 δ`).
+`centroid_bound_K0` is for `K0` (`k0 δ`).  The last section is the upper k-size invariant
+(`merge_ktight`, `merge_clusters_tight`) and the resulting bound on the weight of the clusters a merge
+pass forms (`lim_width_K0` … `K3`, `cluster_width_K0`, `_K1`, `_K2_partial`, `_K3_partial`).
 -/
 set_option linter.unusedSectionVars false
 namespace Pds.Props.C04
@@ -296,5 +299,303 @@ example : UnitOps ([.insert 1 1, .insert 4 1, .insert 3 1, .insert 2 1, .read] :
 example : ((nCentroids (k0 (4 : ℚ)) ⟨[⟨3, 2⟩, ⟨7, 2⟩], 4, some 1, some 4, [], 10⟩).2 : ℚ)
     < 2 * ((k0 (4 : ℚ)).f 1 4 - (k0 (4 : ℚ)).f 0 4) + 1 :=
   centroid_bound_of_scale (k0 4) ex_run (scaleOK_K0 (by norm_num) _)
+
+/-! ### upper k-size invariant: every cluster the merge pass forms spans at most 1 in k-space
+
+`merge_ksize` above is the *lower* invariant (adjacent pairs span more than 1 in k-space, hence few
+centroids).  This section is the *upper* one, on which the accuracy claim rests: a centroid that the
+pass forms by fusing inputs ends at or before the limit `lim sf n q0 = f⁻¹(f(q0) + 1)` that was in
+force for it, hence its share of the total weight is at most the maximal cluster width `W` of the
+scale function (`2/δ` for `K0`, `π/δ` for `K1`, `(ln(n/δ) + 6)/δ` for `K2`, `(2 ln(n/δ) + 10.5)/δ` for
+`K3`).  Centroids the pass hands through unchanged are *not* bounded (a single heavy insertion stays
+a heavy centroid), so every statement has the alternative "is one of the inputs". -/
+
+/-- `Tight sf n S ins q0 out`, spelled out: the first output centroid `a` (with `q0` the weight
+fraction to its left) is an element of `ins` or `q0 + a.count/S` is at most the limit
+`f⁻¹(f(q0) + 1)` in force for it; and so on with `q0 + a.count/S`. -/
+theorem tight_cons (sf : ScaleFn α) (n : Nat) (S q0 : α) (ins : List (Centroid α)) (a : Centroid α)
+    (rest : List (Centroid α)) :
+    Tight sf n S ins q0 (a :: rest) ↔
+      ((a ∈ ins ∨ q0 + a.count / S ≤ sf.fInv (sf.f q0 n + 1) n) ∧
+        Tight sf n S ins (q0 + a.count / S) rest) := Iff.rfl
+
+/-- `merge_ktight`: the output of the greedy pass, started with the limit belonging to `q0`, satisfies
+the upper invariant with the pass's own inputs `cur :: rest` as `ins` — for any scale function, any
+`S`, any weights (no positivity needed). -/
+theorem merge_ktight (sf : ScaleFn α) (n : Nat) (S : α) (rest : List (Centroid α)) (cur : Centroid α)
+    (q0 : α) : Tight sf n S (cur :: rest) q0 (mergeLoop sf n S rest cur q0 (lim sf n q0) []) :=
+  mergeLoop_tight sf n S rest cur q0
+
+/-- `merge_clusters_tight`: what `merge` leaves is tight w.r.t. the sample count `s.nSamples`, the
+total weight `S = sumCount (merge sf s).centroids` (equal to the `totalCount` of the sorted inputs that
+the code divides by, and to `sumCount (s.centroids ++ s.backlog)`: see `merge_total`) and the inputs
+`ins = s.centroids ++ s.backlog` (the pass runs on a sorted permutation of this list; membership is
+the same).  It holds for *every* state `s`, in particular for every reachable one with a non-empty
+backlog — the only case in which the pass runs; with an empty backlog `merge` is the identity and
+every centroid is an input. -/
+theorem merge_clusters_tight (sf : ScaleFn α) (s : St α) :
+    Tight sf s.nSamples (sumCount (merge sf s).centroids) (s.centroids ++ s.backlog) 0
+      (merge sf s).centroids :=
+  merge_tight sf s
+
+/-- For a reachable, non-empty state the `S` of `merge_clusters_tight` is positive and is the total
+weight of the inputs, and all centroids have positive weight (so the weight fractions `count/S` of
+`Tight` are genuine fractions in `(0, 1]` adding up to 1). -/
+theorem merge_total (sf : ScaleFn α) {mb : Nat} {ops : List (Op α)} {s : St α}
+    (h : run sf (new mb) ops = some s) (hne : s.centroids ++ s.backlog ≠ []) :
+    0 < sumCount (merge sf s).centroids ∧
+    sumCount (merge sf s).centroids = sumCount (s.centroids ++ s.backlog) ∧
+    ∀ c ∈ (merge sf s).centroids, 0 < c.count := by
+  have h0 := inv_reachable sf h
+  have hi := inv_merge sf h0
+  have hpos : ∀ c ∈ (merge sf s).centroids, 0 < c.count := fun c hc => hi.pos c (by simp [hc])
+  have hcnt : sumCount (merge sf s).centroids = sumCount (s.centroids ++ s.backlog) := by
+    have := hi.cnt
+    rw [merge_backlog, List.append_nil] at this
+    rw [this, h0.cnt]
+  refine ⟨?_, hcnt, hpos⟩
+  rw [hcnt]
+  exact sumCount_pos h0.pos hne
+
+/-! #### width of the limit, per scale function -/
+
+/-- `K0` (`0 < δ`, any `n`): on `[0, 1]` the limit is `min (q0 + 2/δ) 1`, at most `2/δ` to the right
+of `q0`. -/
+theorem lim_width_K0 {δ : α} (hδ : 0 < δ) (n : Nat) {q0 : α} (h0 : 0 ≤ q0) (h1 : q0 ≤ 1) :
+    lim (k0 δ) n q0 - q0 ≤ 2 / δ := lim_width_k0 hδ n h0 h1
+
+/-- `K1` over `ℝ` (`0 < δ`, any `n`): `k = δ/(2π)·asin(2q − 1)` and `sin` is 1-Lipschitz, so one unit
+of `k` is at most `π/δ` in `q`; the clamping of `k` in `fInv` only moves the limit to the left, never
+below `q0`. -/
+theorem lim_width_K1 {δ : ℝ} (hδ : 0 < δ) (n : Nat) {q0 : ℝ} (h0 : 0 ≤ q0) (h1 : q0 ≤ 1) :
+    lim (k1 δ) n q0 - q0 ≤ Real.pi / δ := lim_width_k1 hδ n h0 h1
+
+/-- `K2` over `ℝ` (`c` is the constant 24 of `K2::x`; `x(n) > 0`): `k = x(n)·ln(q/(1 − q))` and the
+logistic function is `1/4`-Lipschitz, so one unit of `k` is at most `1/(4·x(n))` in `q`.
+Open interval: at `q0 = 0` the model's `f 0 = x(n)·log 0` is `0` over `ℝ` (Mathlib's `log 0 = 0`;
+in `f64` it is `−∞` and the limit is `0`), so there `lim = σ(1/x(n)) ≥ 1/2` and the bound is false as
+soon as `x(n) > 1/2`.  Every centroid but the first starts at a `q0` in `(0, 1)`. -/
+theorem lim_width_K2 {δ c : ℝ} {n : Nat} (hx : 0 < scaleX δ c n) {q0 : ℝ} (h0 : 0 < q0) (h1 : q0 < 1) :
+    lim (k2 δ c) n q0 - q0 ≤ 1 / (4 * scaleX δ c n) := lim_width_k2 hx h0 h1
+
+/-- The width of `K2` is the `W` named by the property: `1/(4·x(n)) = (ln(n/δ) + 6)/δ`.  No side
+condition (when `δ = 0` or `x`'s denominator vanishes both sides are `0`). -/
+theorem width_K2_eq (δ : ℝ) (n : Nat) :
+    1 / (4 * scaleX δ 24 n) = (Real.log ((n : ℝ) / δ) + 6) / δ := k2_width_eq δ n
+
+/-- `K3` over `ℝ` (`c` is the constant 21 of `K3::x`; `x(n) > 0`): the inverse of `K3`
+(`e^u/2` for `u ≤ 0`, `1 − e^(−u)/2` above) is `1/2`-Lipschitz, so one unit of `k` is at most
+`1/(2·x(n))` in `q`.  Open interval for the same reason as `lim_width_K2`: at `q0 = 0` the model has
+`lim = 1 − e^(−1/x(n))/2 ≥ 1/2`. -/
+theorem lim_width_K3 {δ c : ℝ} {n : Nat} (hx : 0 < scaleX δ c n) {q0 : ℝ} (h0 : 0 < q0) (h1 : q0 < 1) :
+    lim (k3 δ c) n q0 - q0 ≤ 1 / (2 * scaleX δ c n) := lim_width_k3 hx h0 h1
+
+/-- The width of `K3` is the `W` named by the property: `1/(2·x(n)) = (2 ln(n/δ) + 10.5)/δ`. -/
+theorem width_K3_eq (δ : ℝ) (n : Nat) :
+    1 / (2 * scaleX δ 21 n) = (2 * Real.log ((n : ℝ) / δ) + 10.5) / δ := k3_width_eq δ n
+
+/-! #### weight of the clusters the pass forms
+
+`s` is any reachable state; `(merge sf s).centroids` is what the next read sees.  When the backlog of
+`s` is empty the pass does not run and every centroid is an element of `s.centroids` (first
+alternative); the statements have content when the backlog is non-empty. -/
+
+/-- Any scale function whose limit is at most `W` to the right of `q0` on `[0, 1)`: every centroid
+after `merge` is one of the inputs (`s.centroids ++ s.backlog`, i.e. not formed by this pass) or its
+share of the total weight is at most `W`. -/
+theorem cluster_width_of_lim (sf : ScaleFn α) {mb : Nat} {ops : List (Op α)} {s : St α}
+    (h : run sf (new mb) ops = some s) {W : α}
+    (hw : ∀ q, 0 ≤ q → q < 1 → lim sf s.nSamples q - q ≤ W) :
+    ∀ c ∈ (merge sf s).centroids,
+      c ∈ s.centroids ++ s.backlog ∨ c.count / sumCount (merge sf s).centroids ≤ W :=
+  merge_width sf s (fun c hc => (inv_merge sf (inv_reachable sf h)).pos c (by simp [hc])) hw
+
+/-- The same when the limit is only controlled on the open interval `(0, 1)`: every centroid *except
+the first* (the only one starting at `q0 = 0`). -/
+theorem cluster_width_of_lim_tail (sf : ScaleFn α) {mb : Nat} {ops : List (Op α)} {s : St α}
+    (h : run sf (new mb) ops = some s) {W : α}
+    (hw : ∀ q, 0 < q → q < 1 → lim sf s.nSamples q - q ≤ W) :
+    ∀ c ∈ (merge sf s).centroids.tail,
+      c ∈ s.centroids ++ s.backlog ∨ c.count / sumCount (merge sf s).centroids ≤ W :=
+  merge_width_tail sf s (fun c hc => (inv_merge sf (inv_reachable sf h)).pos c (by simp [hc])) hw
+
+/-- `cluster_width_K0`: with `K0` and compression `δ > 0`, after any history every centroid a read sees
+was an input of the last pass unchanged, or holds at most `2/δ` of the total weight. -/
+theorem cluster_width_K0 {δ : α} (hδ : 0 < δ) {mb : Nat} {ops : List (Op α)} {s : St α}
+    (h : run (k0 δ) (new mb) ops = some s) :
+    ∀ c ∈ (merge (k0 δ) s).centroids,
+      c ∈ s.centroids ++ s.backlog ∨ c.count / sumCount (merge (k0 δ) s).centroids ≤ 2 / δ :=
+  cluster_width_of_lim (k0 δ) h (fun _ h0 h1 => lim_width_K0 hδ _ h0 h1.le)
+
+/-- `cluster_width_K1`: with `K1` over `ℝ` and compression `δ > 0`, every centroid a read sees was an
+input of the last pass unchanged, or holds at most `π/δ` of the total weight. -/
+theorem cluster_width_K1 {δ : ℝ} (hδ : 0 < δ) {mb : Nat} {ops : List (Op ℝ)} {s : St ℝ}
+    (h : run (k1 δ) (new mb) ops = some s) :
+    ∀ c ∈ (merge (k1 δ) s).centroids,
+      c ∈ s.centroids ++ s.backlog ∨ c.count / sumCount (merge (k1 δ) s).centroids ≤ Real.pi / δ :=
+  cluster_width_of_lim (k1 δ) h (fun _ h0 h1 => lim_width_K1 hδ _ h0 h1.le)
+
+/-- `cluster_width_K2_partial`: with `K2` over `ℝ` and `x(n) > 0` at the current sample count, every
+centroid *but the first* was an input of the last pass unchanged, or holds at most `1/(4·x(n))` of the
+total weight.  Partial: the first centroid is excluded.  It starts at `q0 = 0`, where the model over
+`ℝ` computes `f 0 = x(n)·log 0 = 0` and a limit `σ(1/x(n)) ≥ 1/2`, so in the model the first cluster
+can hold half of the weight and the bound is false for it (`lim_width_K2`); in `f64` the same limit
+evaluates to `0` (`f 0 = −∞`), i.e. there the first centroid is never fused at all. -/
+theorem cluster_width_K2_partial {δ c : ℝ} {mb : Nat} {ops : List (Op ℝ)} {s : St ℝ}
+    (h : run (k2 δ c) (new mb) ops = some s) (hx : 0 < scaleX δ c s.nSamples) :
+    ∀ d ∈ (merge (k2 δ c) s).centroids.tail,
+      d ∈ s.centroids ++ s.backlog ∨
+        d.count / sumCount (merge (k2 δ c) s).centroids ≤ 1 / (4 * scaleX δ c s.nSamples) :=
+  cluster_width_of_lim_tail (k2 δ c) h (fun _ h0 h1 => lim_width_K2 hx h0 h1)
+
+/-- The same with the constant 24 of the code and the `W` of the property, `(ln(n/δ) + 6)/δ`. -/
+theorem cluster_width_K2_W_partial {δ : ℝ} {mb : Nat} {ops : List (Op ℝ)} {s : St ℝ}
+    (h : run (k2 δ 24) (new mb) ops = some s) (hx : 0 < scaleX δ 24 s.nSamples) :
+    ∀ d ∈ (merge (k2 δ 24) s).centroids.tail,
+      d ∈ s.centroids ++ s.backlog ∨
+        d.count / sumCount (merge (k2 δ 24) s).centroids ≤ (Real.log ((s.nSamples : ℝ) / δ) + 6) / δ := by
+  rw [← width_K2_eq]; exact cluster_width_K2_partial h hx
+
+/-- `cluster_width_K3_partial`: with `K3` over `ℝ` and `x(n) > 0`, every centroid *but the first* was
+an input of the last pass unchanged, or holds at most `1/(2·x(n))` of the total weight.  Partial: the
+first centroid is excluded, for the same reason as in `cluster_width_K2_partial` (model limit at
+`q0 = 0` is `1 − e^(−1/x(n))/2 ≥ 1/2`; in `f64` it is `0`). -/
+theorem cluster_width_K3_partial {δ c : ℝ} {mb : Nat} {ops : List (Op ℝ)} {s : St ℝ}
+    (h : run (k3 δ c) (new mb) ops = some s) (hx : 0 < scaleX δ c s.nSamples) :
+    ∀ d ∈ (merge (k3 δ c) s).centroids.tail,
+      d ∈ s.centroids ++ s.backlog ∨
+        d.count / sumCount (merge (k3 δ c) s).centroids ≤ 1 / (2 * scaleX δ c s.nSamples) :=
+  cluster_width_of_lim_tail (k3 δ c) h (fun _ h0 h1 => lim_width_K3 hx h0 h1)
+
+/-- The same with the constant 21 of the code and the `W` of the property, `(2 ln(n/δ) + 10.5)/δ`. -/
+theorem cluster_width_K3_W_partial {δ : ℝ} {mb : Nat} {ops : List (Op ℝ)} {s : St ℝ}
+    (h : run (k3 δ 21) (new mb) ops = some s) (hx : 0 < scaleX δ 21 s.nSamples) :
+    ∀ d ∈ (merge (k3 δ 21) s).centroids.tail,
+      d ∈ s.centroids ++ s.backlog ∨
+        d.count / sumCount (merge (k3 δ 21) s).centroids
+          ≤ (2 * Real.log ((s.nSamples : ℝ) / δ) + 10.5) / δ := by
+  rw [← width_K3_eq]; exact cluster_width_K3_partial h hx
+
+/-! #### non-vacuity of the upper invariant -/
+
+/-- the state of `ex_run` just before the read: four unit-weight entries in the backlog -/
+theorem ex_run_backlog :
+    run (k0 (4 : ℚ)) (new 10) [.insert 1 1, .insert 4 1, .insert 3 1, .insert 2 1]
+      = some ⟨[], 4, some 1, some 4, [⟨2, 1⟩, ⟨3, 1⟩, ⟨4, 1⟩, ⟨1, 1⟩], 10⟩ := by
+  norm_num [run, step, insertWeighted, new, minOpt, maxOpt]
+
+/-- … and what `merge` makes of it: two centroids, both formed by the pass -/
+theorem ex_merge_backlog :
+    merge (k0 (4 : ℚ)) ⟨[], 4, some 1, some 4, [⟨2, 1⟩, ⟨3, 1⟩, ⟨4, 1⟩, ⟨1, 1⟩], 10⟩
+      = ⟨[⟨3, 2⟩, ⟨7, 2⟩], 4, some 1, some 4, [], 10⟩ := by
+  norm_num [merge, List.mergeSort, List.MergeSort.Internal.splitInTwo,
+    List.merge, mergeLoop, k0, Centroid.fuse, Centroid.mean, totalCount]
+
+/-- `Tight` evaluated: neither output centroid is an input, both end exactly at their limit
+(`0 + 2/4 ≤ lim 0 = 1/2`, `1/2 + 2/4 ≤ lim (1/2) = 1`) -/
+example : Tight (k0 (4 : ℚ)) 4 4 [⟨2, 1⟩, ⟨3, 1⟩, ⟨4, 1⟩, ⟨1, 1⟩] 0 [⟨3, 2⟩, ⟨7, 2⟩] := by
+  norm_num [Tight, lim, k0]
+
+example : (⟨3, 2⟩ : Centroid ℚ) ∉ [⟨2, 1⟩, ⟨3, 1⟩, ⟨4, 1⟩, ⟨1, 1⟩] ∧
+    (⟨7, 2⟩ : Centroid ℚ) ∉ [⟨2, 1⟩, ⟨3, 1⟩, ⟨4, 1⟩, ⟨1, 1⟩] := by
+  simp
+
+/-- `Tight` is not vacuous: fusing all four inputs into one centroid violates it -/
+example : ¬ Tight (k0 (4 : ℚ)) 4 4 [⟨2, 1⟩, ⟨3, 1⟩, ⟨4, 1⟩, ⟨1, 1⟩] 0 [⟨10, 4⟩] := by
+  norm_num [Tight, lim, k0]
+
+/-- `merge_ktight` on the pass of `ex_run` (inputs sorted by mean) -/
+example : Tight (k0 (4 : ℚ)) 4 4 [⟨1, 1⟩, ⟨2, 1⟩, ⟨3, 1⟩, ⟨4, 1⟩] 0 [⟨3, 2⟩, ⟨7, 2⟩] := by
+  have := merge_ktight (k0 (4 : ℚ)) 4 4 [⟨2, 1⟩, ⟨3, 1⟩, ⟨4, 1⟩] ⟨1, 1⟩ 0
+  norm_num [mergeLoop, k0, lim, Centroid.fuse] at this
+  norm_num [k0, lim]
+  exact this
+
+/-- `merge_clusters_tight` and `merge_total` on the reachable state `ex_run_backlog` -/
+example : Tight (k0 (4 : ℚ)) 4 (sumCount [⟨3, 2⟩, ⟨7, 2⟩])
+    ([] ++ [⟨2, 1⟩, ⟨3, 1⟩, ⟨4, 1⟩, ⟨1, 1⟩]) 0 [⟨3, 2⟩, ⟨7, 2⟩] := by
+  have := merge_clusters_tight (k0 (4 : ℚ)) ⟨[], 4, some 1, some 4, [⟨2, 1⟩, ⟨3, 1⟩, ⟨4, 1⟩, ⟨1, 1⟩], 10⟩
+  rwa [ex_merge_backlog] at this
+
+example : (0 : ℚ) < sumCount [⟨3, 2⟩, ⟨7, 2⟩] := by
+  have := (merge_total (k0 (4 : ℚ)) ex_run_backlog (by simp)).1
+  rwa [ex_merge_backlog] at this
+
+/-- `cluster_width_K0` on that state: both centroids hold `2/4` of the weight — the bound `2/δ` is
+attained -/
+example : ∀ c ∈ ([⟨3, 2⟩, ⟨7, 2⟩] : List (Centroid ℚ)),
+    c ∈ [] ++ [⟨2, 1⟩, ⟨3, 1⟩, ⟨4, 1⟩, ⟨1, 1⟩] ∨ c.count / sumCount [⟨3, 2⟩, ⟨7, 2⟩] ≤ 2 / 4 := by
+  have := cluster_width_K0 (by norm_num : (0 : ℚ) < 4) ex_run_backlog
+  rwa [ex_merge_backlog] at this
+
+example : (⟨3, 2⟩ : Centroid ℚ).count / sumCount [⟨3, 2⟩, ⟨7, 2⟩] = 2 / 4 := by
+  norm_num [sumCount]
+
+/-- the alternative "is one of the inputs" cannot be dropped: a weight-10 insertion followed by a
+weight-1 insertion (`K0`, `δ = 4`) leaves the heavy centroid unfused with `10/11 > 2/δ` of the weight -/
+example : run (k0 (4 : ℚ)) (new 10) [.insert 1 10, .insert 2 1, .read]
+    = some ⟨[⟨10, 10⟩, ⟨2, 1⟩], 2, some 1, some 2, [], 10⟩ ∧
+    ¬ ((⟨10, 10⟩ : Centroid ℚ).count / sumCount [⟨10, 10⟩, ⟨2, 1⟩] ≤ 2 / 4) := by
+  constructor
+  · norm_num [run, step, insertWeighted, merge, List.mergeSort, List.MergeSort.Internal.splitInTwo,
+      List.merge, mergeLoop, k0, Centroid.fuse, Centroid.mean, new, minOpt, maxOpt, totalCount]
+    intro h; simp at h
+  · norm_num [sumCount]
+
+/-- `lim_width_K0`: hypotheses hold at `q0 = 0` and `q0 = 1/2`, and the bound is attained at `q0 = 0` -/
+example : lim (k0 (4 : ℚ)) 4 (1 / 2) - 1 / 2 ≤ 2 / 4 :=
+  lim_width_K0 (by norm_num) 4 (by norm_num) (by norm_num)
+
+example : lim (k0 (4 : ℚ)) 4 0 - 0 = 2 / 4 := by norm_num [lim, k0]
+
+/-- two unit-weight insertions over `ℝ`, any scale function (no merge happens: `2 ≤ maxBacklog`) -/
+theorem ex_run_real (sf : ScaleFn ℝ) : run sf (new 10) [.insert 1 1, .insert 2 1]
+    = some ⟨[], 2, some 1, some 2, [⟨2, 1⟩, ⟨1, 1⟩], 10⟩ := by
+  norm_num [run, step, insertWeighted, new, minOpt, maxOpt]
+
+example : lim (k1 (10 : ℝ)) 2 (1 / 2) - 1 / 2 ≤ Real.pi / 10 :=
+  lim_width_K1 (by norm_num) 2 (by norm_num) (by norm_num)
+
+example : ∀ c ∈ (merge (k1 (10 : ℝ)) ⟨[], 2, some 1, some 2, [⟨2, 1⟩, ⟨1, 1⟩], 10⟩).centroids,
+    c ∈ [] ++ [(⟨2, 1⟩ : Centroid ℝ), ⟨1, 1⟩] ∨
+      c.count / sumCount (merge (k1 (10 : ℝ)) ⟨[], 2, some 1, some 2, [⟨2, 1⟩, ⟨1, 1⟩], 10⟩).centroids
+        ≤ Real.pi / 10 :=
+  cluster_width_K1 (by norm_num) (ex_run_real _)
+
+/-- `x(n) > 0` for `δ = 2`, `n = 2` and both constants of the code (`4·ln 2 ≤ 4 ≤ 21`) -/
+theorem ex_scaleX_pos {c : ℝ} (hc : 4 ≤ c) : 0 < scaleX (2 : ℝ) c 2 := by
+  have := Real.log_le_sub_one_of_pos (show (0 : ℝ) < 2 by norm_num)
+  exact scaleX_pos (by norm_num) (by linarith) le_rfl
+
+example : lim (k2 (2 : ℝ) 24) 2 (1 / 2) - 1 / 2 ≤ (Real.log (((2 : ℕ) : ℝ) / 2) + 6) / 2 := by
+  rw [← width_K2_eq]
+  exact lim_width_K2 (ex_scaleX_pos (by norm_num)) (by norm_num) (by norm_num)
+
+example : lim (k3 (2 : ℝ) 21) 2 (1 / 2) - 1 / 2 ≤ (2 * Real.log (((2 : ℕ) : ℝ) / 2) + 10.5) / 2 := by
+  rw [← width_K3_eq]
+  exact lim_width_K3 (ex_scaleX_pos (by norm_num)) (by norm_num) (by norm_num)
+
+example : ∀ d ∈ (merge (k2 (2 : ℝ) 24) ⟨[], 2, some 1, some 2, [⟨2, 1⟩, ⟨1, 1⟩], 10⟩).centroids.tail,
+    d ∈ [] ++ [(⟨2, 1⟩ : Centroid ℝ), ⟨1, 1⟩] ∨
+      d.count / sumCount (merge (k2 (2 : ℝ) 24) ⟨[], 2, some 1, some 2, [⟨2, 1⟩, ⟨1, 1⟩], 10⟩).centroids
+        ≤ (Real.log (((2 : ℕ) : ℝ) / 2) + 6) / 2 :=
+  cluster_width_K2_W_partial (ex_run_real _) (ex_scaleX_pos (by norm_num))
+
+example : ∀ d ∈ (merge (k3 (2 : ℝ) 21) ⟨[], 2, some 1, some 2, [⟨2, 1⟩, ⟨1, 1⟩], 10⟩).centroids.tail,
+    d ∈ [] ++ [(⟨2, 1⟩ : Centroid ℝ), ⟨1, 1⟩] ∨
+      d.count / sumCount (merge (k3 (2 : ℝ) 21) ⟨[], 2, some 1, some 2, [⟨2, 1⟩, ⟨1, 1⟩], 10⟩).centroids
+        ≤ (2 * Real.log (((2 : ℕ) : ℝ) / 2) + 10.5) / 2 :=
+  cluster_width_K3_W_partial (ex_run_real _) (ex_scaleX_pos (by norm_num))
+
+/-- the exclusion of `q0 = 0` in `lim_width_K2` is necessary in the model: with `x(n) = 1` the limit at
+`0` is `σ(1) = e/(e + 1) > 1/2 > 1/4` -/
+example {δ c : ℝ} {n : Nat} (hx : scaleX δ c n = 1) :
+    1 / (4 * scaleX δ c n) < lim (k2 δ c) n 0 - 0 := by
+  rw [lim, k2_f_eq δ c n le_rfl zero_le_one, k2_fInv_eq, hx]
+  have he : (1 : ℝ) < Real.exp 1 := by
+    have := Real.add_one_le_exp (1 : ℝ); linarith
+  have e0 : (1 : ℝ) * Real.log (0 / (1 - 0)) + 1 = 1 := by simp
+  rw [e0, div_one, sub_zero, lt_div_iff₀ (by linarith)]
+  linarith
 
 end Pds.Props.C04
